@@ -193,6 +193,77 @@ theorem checked_refines_event (x : Ext) (source : Str) (id : Int) (fields : List
       (∀ nm k, err = some (nm, k) → nm ∈ (S.scan x (eventOfFields source id fields) rules).named) :=
   checked_refines x _ (fieldsWfB_sound source id fields hf) rules e hw h
 
+/-! events served by derived getters -/
+theorem fvWfB_sound {fv : FieldValue} (h : fvWfB fv = true) : C03.fvWf fv := by
+  cases fv with
+  | num n =>
+    cases n with
+    | int v => simp only [fvWfB, numWfB, Bool.and_eq_true, decide_eq_true_eq] at h; exact h
+    | uint v => simp only [fvWfB, numWfB, decide_eq_true_eq] at h; exact h
+    | float f => trivial
+  | str s => trivial
+  | bool b => trivial
+  | some => trivial
+  | none => trivial
+
+mutual
+theorem gget_wf : ∀ (v : GVal) (segs : List Str) (fv : FieldValue), gvalWfB v = true → gget v segs = some fv → C03.fvWf fv
+  | .scalar x, [], fv, hw, h => by
+    simp only [gget, Option.some.injEq] at h; subst h; exact fvWfB_sound (by simpa [gvalWfB] using hw)
+  | .scalar _, _ :: _, fv, _, h => by simp [gget] at h
+  | .optNone, _, fv, _, h => by simp only [gget, Option.some.injEq] at h; subst h; trivial
+  | .optSome v, p, fv, hw, h => by
+    simp only [gget] at h
+    exact gget_wf v p fv (by simpa [gvalWfB] using hw) h
+  | .map _, [], fv, _, h => by simp only [gget, Option.some.injEq] at h; subst h; trivial
+  | .map kvs, [k], fv, hw, h => by
+    simp only [gget] at h
+    simp only [gvalWfB, List.all_eq_true] at hw
+    have hmem : (k, fv) ∈ kvs := by
+      clear hw
+      induction kvs with
+      | nil => simp at h
+      | cons p kvs ih =>
+        obtain ⟨k', v'⟩ := p
+        simp only [List.lookup_cons] at h
+        cases hb : k == k' with
+        | true =>
+          rw [hb] at h; simp only [Option.some.injEq] at h
+          have : k = k' := by simpa using hb
+          subst this; subst h; simp
+        | false => rw [hb] at h; exact List.mem_cons_of_mem _ (ih h)
+    exact fvWfB_sound (hw (k, fv) hmem)
+  | .map _, _ :: _ :: _, fv, _, h => by simp [gget] at h
+  | .struct _ _, [], fv, _, h => by simp only [gget, Option.some.injEq] at h; subst h; trivial
+  | .struct us fs, seg :: rest, fv, hw, h => by
+    simp only [gget] at h
+    exact ggetField_wf us fs seg rest fv (by simpa [gvalWfB] using hw) h
+theorem ggetField_wf : ∀ (us : Bool) (fs : List (FieldDef × GVal)) (seg : Str) (rest : List Str) (fv : FieldValue),
+    gfieldsWfB fs = true → ggetField us fs seg rest = some fv → C03.fvWf fv
+  | _, [], _, _, fv, _, h => by simp [ggetField] at h
+  | us, (f, v) :: fs, seg, rest, fv, hw, h => by
+    simp only [gfieldsWfB, Bool.and_eq_true] at hw
+    simp only [ggetField] at h
+    split at h
+    · split at h
+      · exact gget_wf v rest fv hw.1 h
+      · exact ggetField_wf us fs seg rest fv hw.2 h
+    · exact ggetField_wf us fs seg rest fv hw.2 h
+end
+
+
+theorem gvalWfB_sound (source : Str) (id : Int) (v : GVal) (h : gvalWfB v = true) : C03.EventWf (eventOfGVal source id v) :=
+  fun segs fv hg => gget_wf v segs fv h hg
+
+theorem checked_refines_gval (x : Ext) (source : Str) (id : Int) (v : GVal) (hv : gvalWfB v = true)
+    (rules : List S.SRule) (e : Engine) (hw : WfEngine e)
+    (h : rulesRelB x (eventOfGVal source id v) rules e.rules = true) :
+    ∃ c sr err, Engine.scan x e (eventOfGVal source id v) = ({ e with rulesCache := c }, .done sr err) ∧
+      SrEq sr (S.scan x (eventOfGVal source id v) rules).result ∧
+      (err.isSome = true ↔ (S.scan x (eventOfGVal source id v) rules).failing ≠ []) ∧
+      (∀ nm k, err = some (nm, k) → nm ∈ (S.scan x (eventOfGVal source id v) rules).named) :=
+  checked_refines x _ (gvalWfB_sound source id v hv) rules e hw h
+
 /-- the closed form: the engine is whatever `Engine::try_from` builds from a compiler in a reachable state
     (`C14.RInv`: the empty compiler after any sequence of template loads, rule loads and compile calls —
     `C14.run_inv`); its well-formedness is `C06.ofCompiler_wf`, not an assumption -/
